@@ -58,6 +58,8 @@ theorem clean_sumSimplify {e : Expr} {r : List Var} (he : Clean e) : Clean (sumS
     | some pop =>
       simp only []
       split
+      · exact he
+      split
       · trivial
       · split
         · trivial
